@@ -571,6 +571,22 @@ def special_text_cases(ctx):
             check_addr(ctx, rng.randrange(-128, 128), hp[:k] + bytes([v]) + hp[k + 1:], 'int-literal')
 
 
+def raw_also_friendly_cases(ctx):
+    """Round 11 class D (harness/gen/addrtexts.py): RAW texts that are ALSO well-formed under the FRIENDLY reading - `wc:hex64` whose colon-stripped
+    characters, base64-decoded (the lenient decoders drop the colon), carry a correct CRC-16 at bytes 34..35 over bytes 0..33; the account id is
+    solved for by GF(2) elimination.  For every workchain whose raw text has a base64 reading at all (4 / 8 character decimal texts: all of
+    -128..-100 and a sample of the others).  Each must parse as the raw address it spells (check_addr: all forms of that address)."""
+    from ..gen import addrtexts as at
+    rng = ctx.rng
+    for wc in at.friendly_reading_workchains(rng, ctx.n(10, 60)):
+        for wc_, hp, text in at.raw_also_friendly(rng, wc, ctx.n(2, 6)):
+            if text != spec_raw(wc, hp):
+                raise AssertionError(f'harness: {text!r} is not the raw text of ({wc}, {hp.hex()})')
+            ctx.count('special:raw-also-friendly' + ('' if -128 <= wc <= 127 else '-wide-wc'))
+            check_text(ctx, text, 'raw-also-friendly')
+            check_addr(ctx, wc, hp, 'raw-also-friendly')
+
+
 def run(ctx):
     rng = ctx.rng
     if ctx.search and src_search(ctx):
@@ -578,6 +594,9 @@ def run(ctx):
     # 0. addresses solved for from their text (source literals planted, sub-alphabet texts)
     n0 = len(ctx.failures)
     special_text_cases(ctx)
+    if ctx.search and len(ctx.failures) > n0:
+        return
+    raw_also_friendly_cases(ctx)
     if ctx.search and len(ctx.failures) > n0:
         return
     # 0b. pairs that collide under a wrong packing width, one-field neighbours, one address through two routes
